@@ -376,14 +376,14 @@ pub fn gen_flags(rng: &mut Rng) -> u16 {
 
 pub fn gen_opt(rng: &mut Rng) -> Option<Opt> {
     if rng.bool() {
-        let payload = match rng.below(7) {
-            0 => 0,
-            1 => 512,
-            2 => 1232,
-            3 => 4096,
-            4 => 65535,
-            5 => 511,
-            _ => rng.u16(),
+        // hickory's Edns model (which the client signer goes through) holds payload sizes >= 512 only
+        let payload = match rng.below(6) {
+            0 => 512,
+            1 => 1232,
+            2 => 4096,
+            3 => 65535,
+            4 => 513,
+            _ => rng.u16().max(512),
         };
         Some(Opt { payload, dnssec_ok: rng.chance(2, 5) })
     } else {
@@ -420,13 +420,21 @@ pub fn gen_base(rng: &mut Rng, kind: &str, z: &Zone, n: u64, form_hint: u64) -> 
                 let form2 = *rng.pick(&FORMS);
                 let want2 = rng.chance(3, 4);
                 if let Some((p2, _)) = gen_prereq_pair(rng, z, form2, want2, Some(&avoid)) {
-                    let mut both = vec![prereqs[0].clone(), (p2, false)];
+                    let mut both = vec![prereqs[0].clone(), (p2.clone(), false)];
                     if rng.bool() {
                         both.swap(0, 1);
                     }
                     let all: Vec<Rr> = both.iter().flat_map(|(p, _)| p.rrs.clone()).collect();
-                    // keep the pair only if the twin zone still tells the message apart
-                    if prerequisites(z, &all) != prerequisites(&b, &all) {
+                    // keep the second one only if the twin zone still tells the message apart
+                    // whatever order the server evaluates in: it holds in both zones, or it comes
+                    // after the toggled one and fails with an rcode the toggled one cannot produce
+                    let holds_in_both = prerequisites(z, &p2.rrs).is_empty() && prerequisites(&b, &p2.rrs).is_empty();
+                    let fails_apart = both[0].1 && prerequisites(z, &p2.rrs) == prerequisites(&b, &p2.rrs) && {
+                        let mut t = prerequisites(z, &prereqs[0].0.rrs);
+                        t.extend(prerequisites(&b, &prereqs[0].0.rrs));
+                        prerequisites(z, &p2.rrs).is_disjoint(&t)
+                    };
+                    if prerequisites(z, &all) != prerequisites(&b, &all) && (holds_in_both || fails_apart) {
                         prereqs = both;
                     }
                 }
